@@ -98,6 +98,18 @@ Proof.
 Qed.
 Print Assumptions C09_any_ready_monotone.
 
+(* ---------------------------------------------------------------- providers that ask the resolver
+   Real providers learn whether an awaited reference has resolved from
+   needs_to_be_resolved / ReferenceResolver.has_unresolved_crossrefs, a snapshot that is refreshed
+   at the end of each model's step ([qload], [sprovider] in Model/Resolve.v).  Termination holds
+   for every such provider.  (The least-fixpoint verdict for this class is validated by the
+   correspondence and the property oracle on chains/digraphs over several files; it is not
+   proved: C09_snapshot_success_iff would read
+     forall ready, monotone ready -> ... (exists st, qload (fun settled => mono over settled) models = Ok st) <-> all mreach.) *)
+Theorem C09_terminates_snapshot : forall (ans : sprovider) models, qload ans models <> OutOfFuel.
+Proof. exact qload_terminates. Qed.
+Print Assumptions C09_terminates_snapshot.
+
 (* non-vacuity: a reverse chain over two models resolves in three rounds; a cycle does not *)
 Definition mkd i d n := {| xid := i; xslot := i; xmany := false; xpos := i; xtgt := 10 + i; xdeps := d; xnever := n |}.
 Example C09_nonvacuous_ok :
@@ -118,3 +130,14 @@ Example C09_nonvacuous_monotone :
   | _ => False end.
 Proof. vm_compute. repeat split; reflexivity. Qed.
 Print Assumptions C09_nonvacuous_monotone.
+(* the snapshot view: a chain r0 -> r1 -> r2 with r0 in the first model needs one round per link,
+   also inside one model (r1 sees r2 settled only after the step in which r2 resolved has ended) *)
+Example C09_nonvacuous_snapshot :
+  match qload (snap_ans (fun _ => 0)) [[mkd 0 [1] false]; [mkd 1 [2] false; mkd 2 [] false]] with
+  | Ok st => tgt st 0 = Some 10 /\ rev (log st) = [0;1;2; 0;1; 0]
+  | _ => False end /\
+  match qload (snap_ans (fun _ => 0)) [[mkd 2 [] false; mkd 1 [2] false; mkd 0 [1] false]] with
+  | Ok st => rev (log st) = [2;1;0; 1;0; 0]
+  | _ => False end.
+Proof. vm_compute. repeat split; reflexivity. Qed.
+Print Assumptions C09_nonvacuous_snapshot.
